@@ -807,3 +807,39 @@ Definition follow_idl (rest : string) : bool :=
   | EmptyString => true
   | String c _ => negb (is_alnum_ c) && negb (Ascii.eqb c "<")
   end.
+
+(* [_A-Za-z][0-9a-zA-Z_]*: what ident() accepts as an action, parameter or member name *)
+Definition is_iident (s : string) : bool :=
+  match s with EmptyString => false | String c r => is_alpha_ c && all_chars is_alnum_ r end.
+
+(* the text of one action line, as generateMethod / generateSignal / generateProperty write it *)
+Definition param_str (p : string * ty) : string := fst p ++ ": " ++ idl_name (snd p).
+Definition ret_str (rt : ty) : string := if String.eqb (print rt) "v" then "" else "-> " ++ idl_name rt ++ " ".
+Definition method_line (name ps rs : string) (uid : N) : string :=
+  tab ++ "fn " ++ name ++ "(" ++ ps ++ ") " ++ rs ++ "//uid:" ++ N_to_string uid ++ nl.
+Definition sigprop_line (kw name ps : string) (uid : N) : string :=
+  tab ++ kw ++ " " ++ name ++ "(" ++ ps ++ ") //uid:" ++ N_to_string uid ++ nl.
+
+(* the round trip as a decidable statement: GenerateIDL succeeds and ParseIDL gives back the same
+   interfaces (by name) with the same action ids, names and signatures *)
+Definition same_method (a b : mmethod) : bool :=
+  N.eqb (mm_uid a) (mm_uid b) && String.eqb (mm_name a) (mm_name b) && String.eqb (mm_params a) (mm_params b) &&
+  String.eqb (mm_ret a) (mm_ret b).
+Definition same_signal (a b : msignal) : bool :=
+  N.eqb (ms_uid a) (ms_uid b) && String.eqb (ms_name a) (ms_name b) && String.eqb (ms_sig a) (ms_sig b).
+Fixpoint all2 {A} (f : A -> A -> bool) (l1 l2 : list A) : bool :=
+  match l1, l2 with
+  | [], [] => true
+  | x :: r1, y :: r2 => f x y && all2 f r1 r2
+  | _, _ => false
+  end.
+Definition same_object (a b : mobject) : bool :=
+  String.eqb (mo_name a) (mo_name b) && all2 same_method (mo_methods a) (mo_methods b) &&
+  all2 same_signal (mo_signals a) (mo_signals b) && all2 same_signal (mo_props a) (mo_props b).
+(* objs: actions sorted by uid (as ForEachMethodAndSignal visits them); the parsed lists are in
+   the order of first appearance, which is the same when the uids are distinct and non-zero *)
+Definition roundtrip_ok (pkg : string) (objs : list mobject) : bool :=
+  match gen_idl pkg objs with
+  | Some text => match parse_idl text with IOk objs' => all2 same_object objs objs' | _ => false end
+  | None => false
+  end.
